@@ -15,7 +15,7 @@ mkoverlay() {
       [ $first = 1 ] || echo ','; first=0
       printf '  "%s/%s": ""' "$dst" "$f"
     done
-    for f in "$VERIF_ROOT"/xcryptomodel/*.go; do
+    for f in "${XCRYPTO_MODEL_DIR:-$VERIF_ROOT/xcryptomodel}"/*.go; do
       case "$f" in *_test.go) continue;; esac
       echo ','
       printf '  "%s/verifmodel_%s": "%s"' "$dst" "$(basename "$f")" "$f"
